@@ -451,6 +451,25 @@ def is_repeat_push_helper(prog, name):
     return True
 
 
+def repeat_pairs(prog, body, depth=1):
+    """[(counter class, unit origin names)] for every way `body` (and, one level deep, the helpers of its own impl that it calls) emits a
+    unit string a counted number of times: `(0..n).for_each(|_| push_str(u))`, a verified repeat-push helper, or `u.repeat(n)`."""
+    def cls(rng):
+        return "indentations" if "indentations_before" in rng else ("continuations" if "continuations_before" in rng else ("newlines" if "newlines_before" in rng else ("spaces" if "spaces_before" in rng else rng)))
+    out = [(cls(rng), src) for _, rng, src in foreach_pairs(prog, body)]
+    og = Origins(body)
+    for c in body.calls():
+        if (c.callee or "").endswith("::repeat") and "str" in (c.callee or "") and len(c.args) == 2:
+            o = og.of_operand(c.args[0])
+            src = sorted((x[2].split("::")[-1] if x[0] == "call" else str(x)) for x in o)
+            out.append((cls(canon(body, c.args[1])), src))
+        elif depth:
+            cb = prog.body(c.target or "")
+            if cb is not None and cb.crate == body.crate and cb.npath != body.npath and _root(cb.npath).rsplit("::", 1)[0] == _root(body.npath).rsplit("::", 1)[0] and not is_repeat_push_helper(prog, c.target):
+                out += repeat_pairs(prog, cb, depth - 1)
+    return out
+
+
 def foreach_pairs(prog, body):
     """[(call site, canonical range, sorted origin names of what the closure pushes)] for every `range.for_each(closure)` in body"""
     seq = []
@@ -549,7 +568,8 @@ def getter_use_discipline(prog, rep, R):
                     for ai, a in enumerate(c2.args):
                         if a["k"] in ("copy", "move") and a["place"]["l"] == l:
                             uses.append((c2.callee or "?", ai))
-            bad = [u for u in uses if not ((u[0] in ("alloc::string::String::push_str",) or is_repeat_push_helper(prog, u[0])) and u[1] == 1)]
+            bad = [u for u in uses if not (((u[0] in ("alloc::string::String::push_str",) or is_repeat_push_helper(prog, u[0])) and u[1] == 1)
+                                           or (u[0].endswith("::repeat") and "str" in u[0] and u[1] == 0))]
             # measuring is tolerated when the number can only become a capacity hint
             if bad and all(u[0] == "core::str::len" for u in bad):
                 esc = []
@@ -1197,10 +1217,7 @@ def check_c10(prog, rep, tier, cfg):
         inventory(rep, R, "readers of ReconstructionSettings." + f, fr, [RS + "::" + g, "<pasfmt_core::lang::ReconstructionSettings as core::clone::Clone>::clone"], "only the getter hands out the configured string")
     tr = prog.body("pasfmt_core::rules::optimising_line_formatter::multiline_strings::StringFormatter::try_rewrite_string")
     if rep.check(tr is not None, R, "anchor:try_rewrite_string", "try_rewrite_string not found"):
-        prs = []
-        for c, rng, src in foreach_pairs(prog, tr):
-            cnt = "indentations" if "indentations_before" in rng else ("continuations" if "continuations_before" in rng else rng)
-            prs.append((cnt, src))
+        prs = repeat_pairs(prog, tr)
         want = [("indentations", ["get_indentation_str"]), ("continuations", ["get_continuation_str"])]
         rep.check(prs == want, R, "AGREE:rewrite-width", "try_rewrite_string re-indents interior lines with %s (expected %s: one configured string per counter unit)" % (prs, want), instance={"pairs": [[a, b] for a, b in prs]})
     getter_use_discipline(prog, rep, R)
